@@ -47,3 +47,58 @@ func (v *VerifRule) RecordAndCheck(req *bfe_basic.Request) bool { return v.r.rec
 
 // DictLens returns the number of entries of the access and the prison dictionary.
 func (v *VerifRule) DictLens() (int, int) { return v.r.accessDict.Len(), v.r.prisonDict.Len() }
+
+// VerifModule wraps a real ModulePrison for reload-history runs: rule FILES are loaded through the
+// module's real reload entry (loadProductRuleTable -> productRuleConfLoad -> productTable.load ->
+// initDict), requests go through the real prisonHandler.
+type VerifModule struct {
+	m     *ModulePrison
+	scale int64
+}
+
+// VerifNewModule: scale > 1 divides the period fields of every rule after each load (the rule file can
+// only express whole seconds; nothing else of the loaded table is touched).
+func VerifNewModule(scale int64) *VerifModule {
+	if scale < 1 {
+		scale = 1
+	}
+	return &VerifModule{m: NewModulePrison(), scale: scale}
+}
+
+// Load is the module's reload handler with ?path=<path>.
+func (v *VerifModule) Load(path string) error {
+	_, err := v.m.loadProductRuleTable(map[string][]string{"path": {path}})
+	if err != nil {
+		return err
+	}
+	if v.scale > 1 {
+		for _, rules := range v.m.productTable.getTable() {
+			for i := range rules.ruleList {
+				r := &rules.ruleList[i]
+				if r.checkPeriodNs%1e9 == 0 && r.stayPeriodNs%1e9 == 0 { // not yet scaled
+					r.checkPeriodNs /= v.scale
+					r.stayPeriodNs /= v.scale
+				}
+			}
+		}
+	}
+	return nil
+}
+
+// Handle calls the real prisonHandler and returns its verdict code.
+func (v *VerifModule) Handle(req *bfe_basic.Request) int {
+	ret, _ := v.m.prisonHandler(req)
+	return ret
+}
+
+// Lens returns "product/rule" -> (access entries, prison entries) of the current table.
+func (v *VerifModule) Lens() map[string][2]int {
+	out := map[string][2]int{}
+	for p, rules := range v.m.productTable.getTable() {
+		for i := range rules.ruleList {
+			r := &rules.ruleList[i]
+			out[p+"/"+r.name] = [2]int{r.accessDict.Len(), r.prisonDict.Len()}
+		}
+	}
+	return out
+}
